@@ -42,7 +42,10 @@ CONSTANTS
     Creds,      \* credential classes: "none" "good" "bad" "malformed"
     Protos,     \* subset of {"http", "tcp"}
     MaxItems,   \* bound on Len(allow) + Len(deny)
-    MaxXff      \* bound on the X-Forwarded-For chain
+    MaxXff,     \* bound on the JUDGED part of the X-Forwarded-For chain
+    Pres,       \* numbers of filler hops in front of the judged part (boundary values, e.g. {0, 15, 16, 17, 200})
+    Sufs,       \* numbers of filler hops behind it
+    Fills       \* address classes the filler hops may all have
 
 VARIABLES phase, rules, req, pc, todo, hits
 vars == <<phase, rules, req, pc, todo, hits>>
@@ -62,7 +65,10 @@ Clean(r) == /\ ~(r.allow # <<>> /\ r.deny # <<>>)
 \* what the well-formed part of the configuration says about one address
 WFAdmitAddr(r, a) == /\ (r.allow # <<>> => Covered(a, r.allow))
                      /\ (r.deny  # <<>> => ~Covered(a, r.deny))
-Checked(q) == {q.peer} \cup SeqToSet(q.xff)
+\* An X-Forwarded-For chain of arbitrary length is  pre x fill, the judged elements xff, suf x fill :
+\* TLC enumerates the judged part, the harness unrolls the fillers.  Every element counts, wherever
+\* it stands and however long the chain is.
+Checked(q) == {q.peer} \cup SeqToSet(q.xff) \cup (IF q.pre + q.suf > 0 THEN {q.fill} ELSE {})
 
 \* upper bound: nothing outside this may ever be forwarded
 MayAdmit(r, q)  == \A a \in Checked(q) : WFAdmitAddr(r, a)
@@ -89,15 +95,19 @@ SeqsUpTo(S, n) == UNION {[1..k -> S] : k \in 0..n}
 Configs == {c \in [allow : SeqsUpTo(Items, MaxItems), deny : SeqsUpTo(Items, MaxItems)] :
               Len(c.allow) + Len(c.deny) <= MaxItems}
 HttpReqs == IF "http" \in Protos
-            THEN [proto : {"http"}, peer : Addrs, xff : SeqsUpTo(Addrs, MaxXff), scheme : Schemes, creds : Creds]
+            THEN {q \in [proto : {"http"}, peer : Addrs, xff : SeqsUpTo(Addrs, MaxXff), scheme : Schemes, creds : Creds,
+                          pre : Pres, suf : Sufs, fill : Fills] :
+                     \* one spelling of "no fillers"; fillers only around a non-empty judged part or alone
+                     (q.pre + q.suf = 0) => (q.fill = CHOOSE f \in Fills : TRUE)}
             ELSE {}
 TcpReqs  == IF "tcp" \in Protos
-            THEN [proto : {"tcp"}, peer : Addrs, xff : {<<>>}, scheme : {""}, creds : {"none"}]
+            THEN [proto : {"tcp"}, peer : Addrs, xff : {<<>>}, scheme : {""}, creds : {"none"},
+                  pre : {0}, suf : {0}, fill : {CHOOSE f \in Fills : TRUE}]
             ELSE {}
 Reqs == HttpReqs \cup TcpReqs
 
 NoCfg == [allow |-> <<>>, deny |-> <<>>]
-NoReq == [proto |-> "", peer |-> "", xff |-> <<>>, scheme |-> "", creds |-> ""]
+NoReq == [proto |-> "", peer |-> "", xff |-> <<>>, scheme |-> "", creds |-> "", pre |-> 0, suf |-> 0, fill |-> ""]
 
 -----------------------------------------------------------------------------
 \* the gate
@@ -187,6 +197,14 @@ DenyRejectsInside ==
     (AtCase /\ rules.deny # <<>>
        /\ \E a \in Checked(req) : \E i \in DOMAIN rules.deny : <<a, rules.deny[i]>> \in Member)
     => ~MayAdmit(rules, req)
+\* the length of the chain and the position of an element do not matter: moving fillers from the
+\* front to the back, or adding more of them, never changes the bounds
+ChainPositionFree ==
+    AtCase => \A p \in Pres, sfx \in Sufs :
+        (p + sfx > 0 /\ req.pre + req.suf > 0) =>
+            LET q2 == [req EXCEPT !.pre = p, !.suf = sfx] IN
+            /\ MayAdmit(rules, q2) = MayAdmit(rules, req)
+            /\ MustAdmit(rules, q2) = MustAdmit(rules, req)
 UnknownSchemeRejects ==
     (AtCase /\ req.proto = "http" /\ req.scheme # "" /\ req.scheme \notin KnownSchemes) => ~AuthOK(req)
 \* order independence of a list's well-formed meaning is NOT claimed for the code; the
